@@ -512,7 +512,11 @@ func (c *Cluster) execSingle(sc *Conn, req *wire.Request, regName []byte, get *p
 		c.logExecLocked(e)
 		return &Reply{Exc: exc}
 	}
-	_ = reg
+	if e.Probe && reg != nil && reg.ProbeExc != nil {
+		e.Result = reg.ProbeExc.Class
+		c.logExecLocked(e)
+		return &Reply{Exc: &Exc{Class: reg.ProbeExc.Class, Stack: reg.ProbeExc.Class + ": " + reg.ProbeExc.Stack}}
+	}
 	out := c.scriptedLocked(marker)
 	if out != nil {
 		switch out.Kind {
